@@ -106,6 +106,14 @@ impl<'a> Iterator for StrIter<'a> {
     }
 }
 
+/// An owned `String` holding `s` with spare capacity (the amount depends on the text): what `format!`, a truncated or a
+/// pre-sized `String` look like.  Converting it must behave exactly as converting the `&str`.
+fn roomy_string(s: &str) -> String {
+    let mut v = String::with_capacity(s.len() + [0usize, 1, 7, 17, 40][s.len() % 5]);
+    v.push_str(s);
+    v
+}
+
 /// A `LeanString` item that owns no buffer of its own (inline, or borrowing leaked static text), so that feeding it to
 /// `Extend<LeanString>` / `FromIterator<LeanString>` adds no allocator traffic to the step.
 fn lean_item(x: &str) -> LeanString {
@@ -288,14 +296,14 @@ fn build(step: &Step, pool: &[Option<LeanString>], statics: &[&'static str]) -> 
             let s: &str = text.as_str();
             match route {
                 StrRoute::From => LeanString::from(s),
-                StrRoute::String => LeanString::from(String::from(s)),
+                StrRoute::String => LeanString::from(roomy_string(s)),
                 StrRoute::RefString => {
                     let owned = String::from(s);
                     LeanString::from(&owned)
                 }
                 StrRoute::Box => LeanString::from(Box::<str>::from(s)),
                 StrRoute::CowB => LeanString::from(Cow::Borrowed(s)),
-                StrRoute::CowO => LeanString::from(Cow::<str>::Owned(String::from(s))),
+                StrRoute::CowO => LeanString::from(Cow::<str>::Owned(roomy_string(s))),
                 StrRoute::Parse => {
                     if try_mode {
                         s.parse::<LeanString>()?
